@@ -120,18 +120,28 @@ func c08OpReshareParams(a []string) string {
 	}
 }
 
-// resharerun ecdsa <new thresholds in turn, e.g. 2,1> <seed>
-// REAL ECDSA refreshes (tss/ecdsa/resharing + threshlib) over the three fixture holders, one per listed threshold, then a
-// real signing session of (last threshold + 1) holders with the refreshed shares  =>  ok | reason
+// resharerun ecdsa <new thresholds in turn, e.g. 2,1> <seed> [<committee: fixture indexes, default 0,1,2>]
+// REAL ECDSA refreshes (tss/ecdsa/resharing + threshlib) over the listed fixture holders (a holder not listed LEAVES), one
+// per listed threshold; after each: every member stored the unchanged public key, the new threshold and the NEW committee;
+// then a real signing session of (last threshold + 1) members with the refreshed shares  =>  ok | reason
 func c08OpReshareRunECDSA(a []string) string {
 	seed := u64(a[2])
 	all, err := c08FixturePeers()
 	if err != nil {
 		return "nofixture"
 	}
+	members := []int{0, 1, 2}
+	if len(a) > 3 {
+		members = c08Subset(a[3])
+	}
+	committee := []peer.ID{}
+	for _, i := range members {
+		committee = append(committee, all[i])
+	}
+	n := len(members)
 	stores := []*c08ECDSAStore{}
 	var pubX *big.Int
-	for i := 0; i < 3; i++ {
+	for _, i := range members {
 		fx, err := c18Fixture("ecdsa", i)
 		if err != nil {
 			return "nofixture"
@@ -143,11 +153,11 @@ func c08OpReshareRunECDSA(a []string) string {
 	for round, it := range items(a[1], ",") {
 		nthr := int(u64(it))
 		sid := fmt.Sprintf("c08er-%s-%d", a[2], round)
-		procs := make([]*ecdsaResharing.Resharing, 3)
+		procs := make([]*ecdsaResharing.Resharing, n)
 		for i := range procs {
-			procs[i] = ecdsaResharing.NewResharing(sid, nthr, &c08Host{id: all[i], peers: all}, &c08Comm{self: all[i]}, stores[i])
+			procs[i] = ecdsaResharing.NewResharing(sid, nthr, &c08Host{id: committee[i], peers: committee}, &c08Comm{self: committee[i]}, stores[i])
 		}
-		if r := c08RunAll(3, seed+uint64(round), func(i int) peer.ID { return all[i] }, func(i int, c *c08Comm) c08Proc {
+		if r := c08RunAll(n, seed+uint64(round), func(i int) peer.ID { return committee[i] }, func(i int, c *c08Comm) c08Proc {
 			procs[i].Communication = c
 			return procs[i]
 		}, func() []byte { return procs[0].StartParams(nil) }); r != "" {
@@ -164,15 +174,23 @@ func c08OpReshareRunECDSA(a []string) string {
 			if k.Threshold != nthr {
 				return fmt.Sprintf("refresh%d-stored-threshold", round)
 			}
+			if len(k.Peers) != len(committee) {
+				return fmt.Sprintf("refresh%d-stored-committee", round)
+			}
+			for _, p := range committee {
+				if !c08Has(k.Peers, p) {
+					return fmt.Sprintf("refresh%d-stored-committee", round)
+				}
+			}
 			s.key = k
 		}
 		last = nthr
 	}
 	sub := []int{}
 	fetchers := []ecdsaSigning.SaveDataFetcher{}
-	for i := 0; i <= last && i < 3; i++ {
-		j := (i + int(seed)) % 3
-		sub = append(sub, j)
+	for i := 0; i <= last && i < n; i++ {
+		j := (i + int(seed)) % n
+		sub = append(sub, members[j])
 		fetchers = append(fetchers, stores[j])
 	}
 	digest := make([]byte, 32)
